@@ -7,8 +7,8 @@ MANIFEST = dict(
     technique="Coq proof over the relation ff_sub (every result list a fail-fast execution of the parallel loop can return, for any number of workers "
               "and any interleaving) composed with the baseline comparison and determine_exit_code; tied by trace validation of real runs: every sequential "
               "schedule exhaustively for small file sets, 1..16 rayon threads with random orders and repetitions for larger ones",
-    text="Theorems C11_exit_invariant_no_baseline, C11_never_passes_failing_run, C11_no_ff_results_identical (and the exit-code lemmas exit_1_iff, "
-         "warn_only_forces_0) hold for all result lists, all sub-runs R' with ff_sub R R' and all flag combinations (unbounded). Every observed fail-fast "
+    text="Theorems C11_exit_invariant_no_baseline, C11_exit_invariant, C11_never_passes_failing_run, C11_exit_invariant_run_loop, C11_update_run_same_outcome (a run that updates the "
+         "baseline is not cut short), C11_no_ff_results_identical (and the exit-code lemmas exit_1_iff, warn_only_forces_0) hold for all result lists, all sub-runs R' with ff_sub R R' and all flag combinations (unbounded). Every observed fail-fast "
          "result list of the real CLI is checked to satisfy ff_sub against the full run and its exit status to equal the model's; without fail-fast the JSON "
          "output is byte-identical across thread counts.",
     note="Not shown by proof: that rayon's scheduler and the Relaxed atomics only produce executions inside ff_sub (argued in Check/FailFast.v, validated on "
@@ -46,6 +46,30 @@ def run(ctx):
     jobs = []
     for (sizes, bl, ff_cfg, wae, wo) in small:
         jobs.append(("perm", sizes, bl, perms, [1], 1, ff_cfg, wae, wo, False))
+    # baseline entries of files that were deleted, under --ratchet strict / auto / warn: the scan sees them gone, so they are
+    # stale with and without fail-fast (strict: exit 1 in both) whether or not a failure stops the loop early; with --files
+    # nothing was scanned and they are left alone in both
+    nst = 12 if ctx.tier == "quick" else 40
+    for i in range(nst):
+        n = rng.choice([3, 4, 6, 10])
+        # mostly no failure to stop at: every over-long file is grandfathered
+        sizes = "".join(rng.choice("uuwo") for _ in range(n))
+        fails = [j for j, c in enumerate(sizes) if c == "o"]
+        bl = list(fails) if i % 3 else [j for j in fails if rng.random() < 0.5]
+        mode = "ssaw"[i % 4]
+        full = i % 4 != 3
+        order = list(range(n))
+        rng.shuffle(order)
+        jobs.append(("stale", sizes, bl, [None] if full else [order], [1, 4] if ctx.tier == "quick" else [1, 2, 4, 16], 1, i % 2 == 1, False, False, full, mode, rng.choice([1, 2])))
+    # runs that update the baseline: fail-fast must not change what is written (an updating run evaluates everything);
+    # new failures in front of files the loaded baseline grandfathers, every mode, with and without the old file loaded
+    nup = 8 if ctx.tier == "quick" else 32
+    for i in range(nup):
+        n = rng.choice([4, 6, 10])
+        sizes = "".join(rng.choice("uwoo") for _ in range(n))
+        fails = [j for j, c in enumerate(sizes) if c == "o"]
+        bl = None if i % 4 == 3 else [j for j in fails if rng.random() < 0.6]
+        jobs.append(("update", sizes, bl, [None], [1, 4] if ctx.tier == "quick" else [1, 2, 4, 16], 1, i % 2 == 1, False, False, True, None, 0, "acsn"[i % 4]))
     nbig = 10 if ctx.tier == "quick" else 40
     threads_all = [1, 2, 3, 4, 8, 16] if ctx.tier == "quick" else list(range(1, 17))
     reps = 2 if ctx.tier == "quick" else 3
@@ -69,7 +93,7 @@ def run(ctx):
     traces, spawns = [], 0
 
     def do(j):
-        return trace_case(exe, j[1], j[2], j[3], j[4], j[5], j[6], j[7], j[8], j[9])
+        return trace_case(exe, *j[1:])
     with cf.ThreadPoolExecutor(max_workers=16) as ex:
         for j, (tr, sp) in zip(jobs, ex.map(do, jobs)):
             for t in tr:
@@ -103,7 +127,7 @@ def run(ctx):
     nontrivial = set()
     for t in traces:
         dist[t["part"]] = dist.get(t["part"], 0) + 1
-        slimt = {k2: t[k2] for k2 in ("sizes", "baseline", "order", "threads", "ff_cfg", "wae", "wo", "full_scan", "exit", "exit_noff")}
+        slimt = {k2: t[k2] for k2 in ("sizes", "baseline", "order", "threads", "ff_cfg", "wae", "wo", "full_scan", "exit", "exit_noff", "ratchet", "ghosts", "update")}
         slimt["observed"] = [r["path"] + ":" + r["status"] for r in t["obs"]]
         if not t["ffsub"]:
             tie_bad.append({"what": "observed result list is not ff_sub of the full run", "trace": slimt})
@@ -122,7 +146,22 @@ def run(ctx):
             if any(r["status"] == "G" for r in t["obs"]):
                 klass = "K11_failfast_grandfathered"
             findings.append({"prop": "C11", "class": klass, "what": "exit %d with fail-fast, %d without" % (t["exit"], t["exit_noff"]), "trace": slimt})
-        if any(r["status"] == "F" for r in t["R"]):
+        if t.get("update"):
+            if t["model_disk1"] != w_bl(t["disk1"]):
+                tie_bad.append({"what": "baseline file written by the updating run differs from check_step's", "trace": slimt})
+            if len(t["Rp"]) != len(t["R"]) or (view(t["disk1"]) or {}) != (view(t["disk1_noff"]) or {}):
+                findings.append({"prop": "C11", "class": None, "trace": slimt,
+                                 "what": "--update-baseline %s under fail-fast: %d of %d results, baseline written %s; without fail-fast %s" % (
+                                     UM[t["update"]], len(t["Rp"]), len(t["R"]), sorted(t["disk1"] or {}), sorted(t["disk1_noff"] or {}))})
+        if t.get("ratchet"):
+            # the baseline file after the run: the model's, and - when the loop dropped nothing - the one the run without fail-fast leaves
+            if t["model_disk1"] != w_bl(t["disk1"]):
+                tie_bad.append({"what": "baseline file after the fail-fast run differs from check_step's", "trace": slimt})
+            if len(t["Rp"]) == len(t["R"]) and (view(t["disk1"]) or {}) != (view(t["disk1_noff"]) or {}):
+                findings.append({"prop": "C11", "class": None, "trace": slimt,
+                                 "what": "ratchet %s: no result was dropped, yet the baseline after the fail-fast run holds %s and after the run without fail-fast %s" % (
+                                     t["ratchet"], sorted(t["disk1"] or {}), sorted(t["disk1_noff"] or {}))})
+        if any(r["status"] == "F" for r in t["R"]) or t.get("ghosts") or t.get("update"):
             nontrivial.add((t["sizes"], str(t["baseline"]), str(t["order"]), t["ff_cfg"]))
     for b in ident_bad:
         findings.append({"prop": "C11", "class": None, "what": "JSON output differs across thread counts without fail-fast", "trace": b})
@@ -133,13 +172,16 @@ def run(ctx):
     ctx.cov["rule"] = ("RAYON_NUM_THREADS=1 x every permutation of --files over %d files x placements of passing / warned / failing / grandfathered files, unreadable entries (I/O error: no result) and byte-identical Python/Rust twins (old mtimes) (fail-fast by flag and by "
                        "[check] fail_fast); 1..16 threads x random --files orders and directory scans x repetitions for 8..60 files; every observed R' checked with ff_subb against the "
                        "run without fail-fast, sequential runs against ff_seq, exit against determine_exit_code(apply_baseline_comparison R'); without fail-fast stdout compared bytewise "
-                       "across 1,2,4,8,16 threads. non-trivial = distinct (placement, baseline, order, fail-fast source) with at least one failing file" % k)
+                       "across 1,2,4,8,16 threads; directory scans and --files runs with baseline entries of deleted files under --ratchet strict / auto / warn (exit and, when nothing was dropped, the tightened file equal with and without fail-fast); "
+                       "runs with --update-baseline all / content / structure / new under fail-fast (all results present, file written equal to the run without fail-fast). non-trivial = distinct (placement, baseline, order, fail-fast source) with at least one failing file" % k)
     ctx.cov["input_distribution"] = {"traces": dist, "library": lib["dist"], "cli_spawns": spawns, "identical_output_runs": ident_runs,
                                      "threads": sorted({t["threads"] for t in traces}), "dropped_some_result": sum(1 for t in traces if len(t["Rp"]) < len(t["R"])),
                                      "with_grandfathered": sum(1 for t in traces if any(r["status"] == "G" for r in t["obs"])),
                                      "with_byte_identical_twins": sum(1 for t in traces if "y" in t["sizes"] and "r" in t["sizes"]),
                                      "scans_with_grandfathered_naming_violation": sum(1 for t in traces if "N" in t["sizes"]),
-                                     "with_unreadable_entry": sum(1 for t in traces if "e" in t["sizes"] and not t["full_scan"])}
+                                     "with_unreadable_entry": sum(1 for t in traces if "e" in t["sizes"] and not t["full_scan"]),
+                                     "with_entries_of_deleted_files_under_ratchet": sum(1 for t in traces if t.get("ghosts") and t.get("ratchet")),
+                                     "updating_runs": sum(1 for t in traces if t.get("update"))}
     ctx.cov["model_vs_impl_mismatches"] = len(lib["mismatches"]) + len(tie_bad)
     for t in traces[:3]:
         ctx.sample({"sizes": t["sizes"], "baseline": t["baseline"], "order": t["order"], "threads": t["threads"], "observed": [r["path"] + ":" + r["status"] for r in t["obs"]],
